@@ -21,6 +21,8 @@ class VroomOracle(Oracle):
         self.cap = min(p.get("h_max", 100), self.n)
         self.delta = 4 * p["b"] / (p["f_max"] * math.sqrt(self.n))
         self.C = sum(1.0 / (h * l) for h in range(1, self.H + 1) for l in range(1, 2 ** h + 1))
+        if 4 * self.n ** 3 / self.delta < 1:
+            raise HarnessError("parameter set outside the explored alphabet: ln(4 n^3 / delta) < 0 (the confidence width is undefined)")
         self.rew = {}
         self.t = 0
         self.P = ctx.algo.partition
